@@ -347,7 +347,7 @@ def hex_from_percent(value: float | None, high_res: bool = True) -> HexStr2:
         return "EF"
     if not isinstance(value, float | int) or not 0 <= value <= 1:
         raise ValueError(f"Invalid value: {value}, is not a percentage")
-    result = int(value * (200 if high_res else 100))
+    result = int(round(value * (200 if high_res else 100)))
     return f"{result:02X}"
 
 
